@@ -56,6 +56,20 @@ def untagKVs : List (String × Val N) → List (String × Val N)
   | (k, v) :: kvs => if k == tagKey then untagKVs kvs else (k, untagVal v) :: untagKVs kvs
 end
 
+mutual
+/-- no object of the value uses the reserved tag member name -/
+def NoTag : Val N → Prop
+  | .arr xs => NoTagL xs
+  | .obj kvs => NoTagKV kvs
+  | _ => True
+def NoTagL : List (Val N) → Prop
+  | [] => True
+  | x :: xs => NoTag x ∧ NoTagL xs
+def NoTagKV : List (String × Val N) → Prop
+  | [] => True
+  | (k, v) :: kvs => k ≠ tagKey ∧ NoTag v ∧ NoTagKV kvs
+end
+
 /-- JSON round trip of the clone: function values become "" -/
 partial def cloneVal : Val N → Val N
   | .arr xs => .arr (xs.map cloneVal)
@@ -108,7 +122,8 @@ def callTransform (r : Rec N) (pattern updates : Node N) (deletes : Option (Node
         | p :: ps, cur => do
           match getAt cur p with
           | some (.obj kvs) =>
-            let item : Val N := .obj kvs
+            -- the update and delete clauses see the object without the location tags
+            let item : Val N := untagVal (.obj kvs)
             let upd ← r.ev updates (some item) env
             let kvs1 ← (match upd with
               | none => pure kvs
@@ -117,7 +132,7 @@ def callTransform (r : Rec N) (pattern updates : Node N) (deletes : Option (Node
             let kvs2 ← (match deletes with
               | none => pure kvs1
               | some dn => do
-                let d ← r.ev dn (some (.obj kvs1)) env
+                let d ← r.ev dn (some (untagVal (.obj kvs1))) env
                 match d with
                 | none => pure kvs1
                 | some dv =>
